@@ -135,6 +135,11 @@ def parameter_sets(seed: int):
         _c("dt=0.7,t_start=2,t_init=1.5", 0.7, 2.0, 1.5),
         _c("dt=0.1,t_start=3*0.1", 0.1, 0.1 * 3, 0.0),
         _c("dt=0.7,t_start=2,t_init=2.5", 0.7, 2.0, 2.5),  # starts after t_start: lattice anchored at t_init
+        # t_start = 0 is a value, not "no t_start" (falsy values of optional parameters)
+        _c("dt=0.5,t_start=0.0,t_init=-0.25", 0.5, 0.0, -0.25),
+        _c("dt=0.5,t_start=0 (int),t_init=-1", 0.5, 0, -1.0),
+        _c("dt=1/3,t_start=-0.0,t_init=-5", third, -0.0, -5.0),
+        _c("dt=0.1,t_start=0.0,t_init=0.3", 0.1, 0.0, 0.3),
         _c("dt=1e-3,t_init=1000", 1e-3, None, 1000.0),
         _c("dt=2.5,t_init=-7.5", 2.5, None, -7.5),
         _c("dt=1e6", 1e6, None, 0.0),
@@ -185,6 +190,8 @@ def parameter_sets(seed: int):
         _l("dt0=0.1,factor=2,t_start=3*0.1", 0.1, 2.0, 0.1 * 3, 0.0),
         _l("dt0=1/3,factor=1,t_start=-2,t_init=-5", third, 1.0, -2.0, -5.0),
         _l("dt0=1/3,factor=3,t_start=-2,t_init=0", third, 3.0, -2.0, 0.0),
+        _l("dt0=0.5,factor=2,t_start=0.0,t_init=-1", 0.5, 2.0, 0.0, -1.0),
+        _l("dt0=0.25,factor=1,t_start=0 (int),t_init=-0.3", 0.25, 1.0, 0, -0.3),
         _l("defaults", 1.0, 1.0, None, 0.0, via="default"),
         _l("dt0=0.1,factor=10", 0.1, 10.0, None, 0.0),
         _l("dt0=1,factor=1.01", 1.0, 1.01, None, 0.0),
@@ -209,7 +216,7 @@ def lattice_sets():
     `family` (the leading parameters) is what enters a violation signature"""
     third, seventh = 1.0 / 3.0, 1.0 / 7.0
     out = []
-    starts = [(None, 0.0), (None, 0.3), (None, -2.1), (None, 1000.0), (0.5, 0.0), (-2.0, -5.0)]
+    starts = [(None, 0.0), (None, 0.3), (None, -2.1), (None, 1000.0), (0.5, 0.0), (-2.0, -5.0), (0.0, -0.25), (0.0, -5.0)]
     for dt in [0.1, 0.2, 0.3, 0.6, 0.7, third, seventh, 1e-3, 1e-5, 3.0, 1e3]:
         for ts, ti in starts:
             P = _c(f"dt={dt:g},t_start={ts},t_init={ti:g}", dt, ts, ti)
